@@ -38,6 +38,9 @@ def all_terms(tier):
             if R.spell(v, sp) is not None:
                 for place in ("before", "after"):
                     out.append(("equ", v, sp, place))
+    for v in (-1, -7, -200):
+        for place in ("before", "after"):
+            out.append(("equ", v, "dec", place))
     out.append(("LB", None, None, None))
     out.append(("LA", None, None, None))
     return out
@@ -46,6 +49,7 @@ def all_terms(tier):
 CORE_TERMS = [("lit", 1, "dec", None), ("lit", 5, "hex2", None), ("lit", 200, "dec", None), ("lit", 256, "hex", None),
               ("lit", 4660, "hex4", None), ("lit", 65535, "dec", None), ("lit", 0, "dec", None), ("equ", 5, "dec", "before"),
               ("equ", 200, "hex2", "after"), ("equ", 4660, "hex4", "before"), ("equ", 0, "dec", "after"), ("equ", 300, "dec", "before"),
+              ("equ", -7, "dec", "before"), ("equ", -1, "dec", "after"),
               ("LB", None, None, None), ("LA", None, None, None)]
 
 
@@ -276,6 +280,13 @@ def check_case(case):
                 got = rec.get("target")
             if got is None and not viol:
                 bad("wrong addressing form", STMT[pos][1], str(rec.get("key")), rc)
+    # division with a negative operand: "truncating / on 16-bit quantities" admits the signed truncating quotient and the quotient
+    # of the unsigned 16-bit patterns; flooring (or anything else) is wrong under both readings
+    alt = None
+    if case["op"] == "/" and (lv < 0 or rv < 0) and rv != 0:
+        alt = ((lv % 65536) // (rv % 65536)) % (1 << w)
+    if not viol and got is not None and alt is not None and got == alt:
+        got = None
     if not viol and got is not None:
         if not fits:
             bad("value that does not fit the field accepted", "diagnostic (or, for 16-bit fields, r mod 65536)",
@@ -300,6 +311,6 @@ def describe(tier):
                   "(or negative within the signed range); /0 => diagnostic; results outside 0..65535 => diagnostic or r mod 65536; "
                   "rejection is a violation only for README-exhibited combinations whose result fits",
         "rule": "complete product; state = (position, result class, encoded value); non-trivial = accepted",
-        "assumptions": ["negative EQU constants not used", "EQU,PCR may mean offset or target", "numeric branch targets left open",
+        "assumptions": ["for / with a negative EQU constant both the signed truncating and the unsigned 16-bit quotient are accepted", "EQU,PCR may mean offset or target", "numeric branch targets left open",
                         "EQU of a label expression left open"],
     }
